@@ -25,14 +25,20 @@ Proof.
   unfold advance. cbn [lpos lrest]. rewrite drop_app_exact. reflexivity.
 Qed.
 
+(** the /Length entry: a direct non-negative integer, or a reference that the resolver (asked for an integer) resolves to one —
+    whichever way that integer object is stored (ordinary indirect object or member of an object stream: C11_member) *)
+Definition length_entry (R : resolver) (d : dict) (len : N) : Prop :=
+  dict_get key_Length d = Some (PInt (Z.of_N len)) \/
+  exists i g, dict_get key_Length d = Some (PRef i g) /\ R i g F_INTEGER = Ok (PInt (Z.of_N len)).
+
 (** the dictionary followed by the keyword `stream`: the parser takes the stream branch *)
-Theorem parse_stream_spelled d body :
+Theorem parse_stream_spelled_len d body :
   spells_dict d body -> NoDup (keys d) ->
   forall fuel R id gen depth s s2 s3 s4 eol data rest,
     (length body + 2 <= fuel)%nat -> 1 + ddepth d <= depth ->
     Lexes s (IWord kw_dict_open :: body ++ [IWord kw_dict_close]) s2 ->
     next s2 = Ok (kw_stream, s3) -> stream_eol eol -> lrest s3 = eol ++ data ++ rest ->
-    dict_get key_Length d = Some (PInt (Z.of_N (lenN data))) ->
+    length_entry R d (lenN data) ->
     next_expect (mkLx (lpos s3 + lenN eol + lenN data) rest) kw_endstream = Ok s4 ->
     parse_fuel fuel R (Some (id, gen)) F_ANY depth s = Ok (PStream d id gen (lpos s3 + lenN eol) (lenN data), s4).
 Proof.
@@ -48,8 +54,26 @@ Proof.
   assert (Es : s2' = s2) by (inversion HL2; reflexivity). subst s2'. rewrite E2. cbn [bind app].
   rewrite (next_peek _ _ _ Hn). cbn [bind]. rewrite bytes_eqb_refl.
   unfold parse_stream_object. rewrite (next_stream_ok s2 s3 eol (data ++ rest) Hn He Hr). cbn [bind].
-  rewrite Hlen. assert ((0 <=? Z.of_N (lenN data))%Z = true) as -> by (apply Z.leb_le; lia). rewrite N2Z.id. cbn [bind].
-  rewrite read_n_exact. rewrite N.eqb_refl. cbn [negb]. rewrite Hend. reflexivity.
+  assert (Hz : (0 <=? Z.of_N (lenN data))%Z = true) by (apply Z.leb_le; lia).
+  destruct Hlen as [Hlen | (i & g & Hlen & HR)].
+  - rewrite Hlen, Hz, N2Z.id. cbn [bind].
+    rewrite read_n_exact. rewrite N.eqb_refl. cbn [negb]. rewrite Hend. reflexivity.
+  - rewrite Hlen, HR. cbn [bind as_usize_prim]. rewrite Hz, N2Z.id. cbn [bind].
+    rewrite read_n_exact. rewrite N.eqb_refl. cbn [negb]. rewrite Hend. reflexivity.
+Qed.
+
+Theorem parse_stream_spelled d body :
+  spells_dict d body -> NoDup (keys d) ->
+  forall fuel R id gen depth s s2 s3 s4 eol data rest,
+    (length body + 2 <= fuel)%nat -> 1 + ddepth d <= depth ->
+    Lexes s (IWord kw_dict_open :: body ++ [IWord kw_dict_close]) s2 ->
+    next s2 = Ok (kw_stream, s3) -> stream_eol eol -> lrest s3 = eol ++ data ++ rest ->
+    dict_get key_Length d = Some (PInt (Z.of_N (lenN data))) ->
+    next_expect (mkLx (lpos s3 + lenN eol + lenN data) rest) kw_endstream = Ok s4 ->
+    parse_fuel fuel R (Some (id, gen)) F_ANY depth s = Ok (PStream d id gen (lpos s3 + lenN eol) (lenN data), s4).
+Proof.
+  intros Hsd Hnd fuel R id gen depth s s2 s3 s4 eol data rest Hf Hd HL Hn He Hr Hlen Hend.
+  eapply parse_stream_spelled_len; eauto. left. exact Hlen.
 Qed.
 
 (** … inside `n g obj … endobj` *)
@@ -75,4 +99,63 @@ Proof.
   rewrite (parse_stream_spelled d body Hsd Hnd (fuel_for t3) R id gen MAX_DEPTH t3 s2 s3 s4 eol data rest
              (Hfuel t3 HL3) Hd HL3 Hn He Hr Hlen Hend).
   cbn [bind]. rewrite Hobj. destruct allow; reflexivity.
+Qed.
+
+Theorem parse_indirect_stream_spelled_len d body a b id gen :
+  spells_dict d body -> NoDup (keys d) -> parse_u64 a = Ok id -> parse_u64 b = Ok gen ->
+  forall R allow s s2 s3 s4 s5 eol data rest,
+    1 + ddepth d <= MAX_DEPTH ->
+    Lexes s (IWord a :: IWord b :: IWord kw_obj :: IWord kw_dict_open :: body ++ [IWord kw_dict_close]) s2 ->
+    (forall s0, Lexes s0 (IWord kw_dict_open :: body ++ [IWord kw_dict_close]) s2 -> (length body + 2 <= fuel_for s0)%nat) ->
+    next s2 = Ok (kw_stream, s3) -> stream_eol eol -> lrest s3 = eol ++ data ++ rest ->
+    length_entry R d (lenN data) ->
+    next_expect (mkLx (lpos s3 + lenN eol + lenN data) rest) kw_endstream = Ok s4 ->
+    next_expect s4 kw_endobj = Ok s5 ->
+    parse_indirect_object R allow F_ANY s = Ok (id, gen, PStream d id gen (lpos s3 + lenN eol) (lenN data), s5).
+Proof.
+  intros Hsd Hnd Ha Hb R allow s s2 s3 s4 s5 eol data rest Hd HL Hfuel Hn He Hr Hlen Hend Hobj.
+  destruct (Lexes_word_inv _ _ _ _ HL) as [t1 [E1 HL1]].
+  destruct (Lexes_word_inv _ _ _ _ HL1) as [t2 [E2 HL2]].
+  destruct (Lexes_word_inv _ _ _ _ HL2) as [t3 [E3 HL3]].
+  unfold parse_indirect_object. rewrite E1. cbn [bind]. rewrite Ha. cbn [bind]. rewrite E2. cbn [bind]. rewrite Hb. cbn [bind].
+  unfold next_expect at 1. rewrite E3. cbn [bind]. rewrite bytes_eqb_refl. cbv iota. cbn [bind].
+  unfold parse_ctx.
+  rewrite (parse_stream_spelled_len d body Hsd Hnd (fuel_for t3) R id gen MAX_DEPTH t3 s2 s3 s4 eol data rest
+             (Hfuel t3 HL3) Hd HL3 Hn He Hr Hlen Hend).
+  cbn [bind]. rewrite Hobj. destruct allow; reflexivity.
+Qed.
+
+(** C11, second sentence: the data window of a stream is the same whether /Length is written directly or as a reference that
+    resolves to the same integer — the two dictionaries differ only in that entry, the bytes after the keyword are the same. *)
+Theorem stream_data_independent_of_length_storage d1 body1 d2 body2 a b id gen :
+  spells_dict d1 body1 -> NoDup (keys d1) -> spells_dict d2 body2 -> NoDup (keys d2) ->
+  parse_u64 a = Ok id -> parse_u64 b = Ok gen ->
+  forall R allow i g data eol rest,
+    dict_get key_Length d1 = Some (PInt (Z.of_N (lenN data))) ->
+    dict_get key_Length d2 = Some (PRef i g) -> R i g F_INTEGER = Ok (PInt (Z.of_N (lenN data))) ->
+    1 + ddepth d1 <= MAX_DEPTH -> 1 + ddepth d2 <= MAX_DEPTH -> stream_eol eol ->
+    forall s s2 s3 s4 s5 t t2 t3 t4 t5,
+    Lexes s (IWord a :: IWord b :: IWord kw_obj :: IWord kw_dict_open :: body1 ++ [IWord kw_dict_close]) s2 ->
+    (forall s0, Lexes s0 (IWord kw_dict_open :: body1 ++ [IWord kw_dict_close]) s2 -> (length body1 + 2 <= fuel_for s0)%nat) ->
+    next s2 = Ok (kw_stream, s3) -> lrest s3 = eol ++ data ++ rest ->
+    next_expect (mkLx (lpos s3 + lenN eol + lenN data) rest) kw_endstream = Ok s4 -> next_expect s4 kw_endobj = Ok s5 ->
+    Lexes t (IWord a :: IWord b :: IWord kw_obj :: IWord kw_dict_open :: body2 ++ [IWord kw_dict_close]) t2 ->
+    (forall s0, Lexes s0 (IWord kw_dict_open :: body2 ++ [IWord kw_dict_close]) t2 -> (length body2 + 2 <= fuel_for s0)%nat) ->
+    next t2 = Ok (kw_stream, t3) -> lrest t3 = eol ++ data ++ rest ->
+    next_expect (mkLx (lpos t3 + lenN eol + lenN data) rest) kw_endstream = Ok t4 -> next_expect t4 kw_endobj = Ok t5 ->
+    exists st1 st2,
+      parse_indirect_object R allow F_ANY s = Ok (id, gen, PStream d1 id gen st1 (lenN data), s5) /\
+      parse_indirect_object R allow F_ANY t = Ok (id, gen, PStream d2 id gen st2 (lenN data), t5) /\
+      firstn (length data) (skipn (N.to_nat (st1 - lpos s3)) (lrest s3)) = data /\
+      firstn (length data) (skipn (N.to_nat (st2 - lpos t3)) (lrest t3)) = data.
+Proof.
+  intros H1 N1 H2 N2 Ha Hb R allow i g data eol rest L1 L2 HR D1 D2 He
+         s s2 s3 s4 s5 t t2 t3 t4 t5 LS F1 Ns Rs Es Os LT F2 Nt Rt Et Ot.
+  exists (lpos s3 + lenN eol), (lpos t3 + lenN eol). split; [|split; [|split]].
+  - eapply parse_indirect_stream_spelled_len; eauto. left. exact L1.
+  - eapply parse_indirect_stream_spelled_len; eauto. right. exists i, g. split; assumption.
+  - rewrite Rs. replace (N.to_nat (lpos s3 + lenN eol - lpos s3)) with (length eol) by (unfold lenN; lia).
+    rewrite skipn_app, skipn_all, Nat.sub_diag. cbn [app skipn]. rewrite firstn_app, firstn_all, Nat.sub_diag. cbn [firstn]. apply app_nil_r.
+  - rewrite Rt. replace (N.to_nat (lpos t3 + lenN eol - lpos t3)) with (length eol) by (unfold lenN; lia).
+    rewrite skipn_app, skipn_all, Nat.sub_diag. cbn [app skipn]. rewrite firstn_app, firstn_all, Nat.sub_diag. cbn [firstn]. apply app_nil_r.
 Qed.
